@@ -827,43 +827,92 @@ func mat7(c *Ctx) {
 			}
 		}
 		// foreign branches
+		isOne := func(v ssa.Value) bool { _, f, ok := ir.FieldLoad(v); return ok && f == "theOne" }
+		isBoolFn := c.fnOpt("internal/values", "IsBool")
 		ir.Instrs(fn, func(in ssa.Instruction) {
 			bo, ok := in.(*ssa.BinOp)
 			if !ok || !(bo.Op == token.NEQ || bo.Op == token.EQL) {
 				return
 			}
-			isOne := func(v ssa.Value) bool { _, f, ok := ir.FieldLoad(v); return ok && f == "theOne" }
 			if !isOne(bo.X) && !isOne(bo.Y) {
 				return
 			}
 			foreign := bo.Op == token.NEQ
 			for _, e := range ir.EdgesWhere(fn, bo, foreign) {
-				// the foreign edge: either returns (false, K, args) or continues a scan inside the token
-				if !ir.IsReturn(e.To) {
-					continue
+				// stay inside the current iteration of any enclosing loop
+				headers := map[*ssa.BasicBlock]bool{}
+				for _, h := range fn.Blocks {
+					isHdr := false
+					for _, p := range h.Preds {
+						if h.Dominates(p) {
+							isHdr = true
+						}
+					}
+					if isHdr && h.Dominates(e.From) {
+						headers[h] = true
+					}
 				}
-				ret := e.To.Instrs[len(e.To.Instrs)-1].(*ssa.Return)
-				key := fmt.Sprintf("%s:foreign@%s", Q(fn), relLine(c, fn, ret.Pos()))
-				k, isK := ir.ConstInt(ret.Results[1])
-				v, isC := ir.ConstBool(ret.Results[0])
-				if !isK || !isC || v || ret.Results[2] != ssa.Value(args) {
-					c.Bad(key, ret.Pos(), "a foreign occurrence does not return (false, constant, unchanged vector)")
-					continue
-				}
-				var max int64 = -1
-				for _, oe := range ir.EdgesWhere(fn, bo, !foreign) {
-					for _, o := range owns {
-						if ir.EdgeDominates(oe.From, oe.To, o.r.Block()) && o.drop > max {
-							max = o.drop
+				region := ir.Reach(e.To, headers, nil)
+				continues := headers[e.To]
+				for b := range region {
+					for _, sc := range b.Succs {
+						if headers[sc] {
+							continues = true
 						}
 					}
 				}
-				if max < 0 {
-					c.Undecided(key, ret.Pos(), "no own-match return is paired with this foreign branch")
-					continue
+				if continues {
+					key := fmt.Sprintf("%s:foreign-continues@%s", Q(fn), relLine(c, fn, bo.Pos()))
+					flag := false
+					for _, c2 := range ir.Calls(fn) {
+						if cv, ok := c2.(*ssa.Call); ok && ir.Static(cv) == isBoolFn && isBoolFn != nil && ir.HoldsAt(cv, true, e.From) {
+							flag = true
+						}
+					}
+					c.Check(flag, key, bo.Pos(), "the scan goes on inside the token only past a foreign FLAG", "the scan continues inside the token past a foreign option that takes a value: letters of that value would be read as options")
 				}
-				c.Check(k == max, key, ret.Pos(), fmt.Sprintf("skips %d token(s), as many as an own occurrence of this form consumes", k),
-					fmt.Sprintf("skips %d token(s) but an own occurrence of this form consumes %d: adjacent occurrences of different options no longer commute", k, max))
+				for b := range region {
+					if !ir.IsReturn(b) {
+						continue
+					}
+					ret := b.Instrs[len(b.Instrs)-1].(*ssa.Return)
+					key := fmt.Sprintf("%s:foreign@%s", Q(fn), relLine(c, fn, ret.Pos()))
+					k, isK := ir.ConstInt(ret.Results[1])
+					v, isC := ir.ConstBool(ret.Results[0])
+					if !isK || !isC || v || ret.Results[2] != ssa.Value(args) {
+						c.Bad(key, ret.Pos(), "a foreign occurrence does not return (false, constant, unchanged vector)")
+						continue
+					}
+					if k == 0 {
+						continue // gives the scan up; not a skip
+					}
+					sf := ir.DominatingConds(b)
+					var max int64 = -1
+					for _, o := range owns {
+						so := map[string]bool{}
+						for _, cd := range ir.DominatingConds(o.r.Block()) {
+							so[fmt.Sprintf("%s=%v", cd.Key, cd.Want)] = true
+						}
+						match := true
+						for _, cd := range sf {
+							if strings.Contains(cd.Key, ".theOne") {
+								continue
+							}
+							if !so[fmt.Sprintf("%s=%v", cd.Key, cd.Want)] {
+								match = false
+							}
+						}
+						if match && o.drop > max {
+							max = o.drop
+						}
+					}
+					if max < 0 {
+						c.Bad(key, ret.Pos(), "no own-match path is taken under the same form conditions as this foreign branch: the spelling of a foreign occurrence is classified differently from an own one (skip count %d cannot be justified)", k)
+						continue
+					}
+					c.Check(k == max, key, ret.Pos(), fmt.Sprintf("skips %d token(s), as many as an own occurrence of this form consumes", k),
+						fmt.Sprintf("skips %d token(s) but an own occurrence of this form consumes %d: adjacent occurrences of different options no longer commute", k, max))
+				}
 			}
 		})
 	}
